@@ -4,7 +4,7 @@ import json
 META = {
     "level": "model_checking",
     "technique": "TLA+ LRU-of-LRU transcription of MemoryStore model-checked (step properties + 3 canaries); TLC-generated edge-cover schedules + exhaustive short + seeded random schedules executed on the real MemoryStore (public API + constructed FromSwarm events); every (events, snapshot, return value) validated by TLC against a property-level trace spec",
-    "text": "TLC exhaustively explores the transcribed store (hashlink LRU semantics, permanence flag, event queue; explicit add/remove, NewExternalAddrOfPeer, ConnectionEstablished with failed addresses, DialFailure Transport/WrongPeerId) and proves per step: dial-failure paths never remove a permanent entry, sizes stay within the capacities, events equal the step's additions and explicit/automatic removals; three canaries (force ignored, entry() overflow, silent automatic removal) are rejected. TLC emits one schedule per transition of small instances; these, all op sequences of length 2-3 over a 26-letter alphabet for five configurations and seeded random schedules are run on the real libp2p_peer_store::MemoryStore. After every operation the driver drains the store's events and snapshots its content through the public iterators; TLC checks every step against the property-level spec: capacities respected; no Removed event for an explicitly added address in a swarm-event operation; Added/Removed events exactly for pairs that entered / were removed as targets of the operation; a pair leaving the store without event must be a forced capacity eviction (count-exact, victim free); add_address/remove_address contracts.",
+    "text": "TLC exhaustively explores the transcribed store (hashlink LRU semantics, permanence flag, event queue; explicit add/remove, NewExternalAddrOfPeer, ConnectionEstablished with failed addresses, DialFailure Transport/WrongPeerId) and proves per step: dial-failure paths never remove a permanent entry, sizes stay within the capacities, events equal the step's additions and explicit/automatic removals; three canaries (force ignored, entry() overflow, silent automatic removal) are rejected. TLC emits one schedule per transition of small instances; these, all op sequences of length 2-3 over a 26-letter alphabet for five configurations and seeded random schedules (a quarter of them also using the custom-data API, whose address-less records occupy capacity: judged for the bounds incl. the record count, permanence and the API contract) are run on the real libp2p_peer_store::MemoryStore. After every operation the driver drains the store's events and snapshots its content through the public iterators; TLC checks every step against the property-level spec: capacities respected; no Removed event for an explicitly added address in a swarm-event operation; Added/Removed events exactly for pairs that entered / were removed as targets of the operation; a pair leaving the store without event must be a forced capacity eviction (count-exact, victim free); add_address/remove_address contracts.",
     "note": "Which entry a capacity eviction chooses is left to the implementation; automatic removal/addition on swarm events is allowed but not required by the trace spec. Custom data API not exercised.",
     "design_ref": "6/C54",
 }
